@@ -200,6 +200,28 @@ func c05(r *ev.Run) {
 		}
 		r.Eval(local)
 	})
+	// (2b) field CONTENTS: the message is bytes - text in any encoding, binary, blanks, zeros - never interpreted
+	{
+		var nc int64
+		for i, sh := range usableShapes([]int{60}) {
+			x := sh
+			x.Hash, x.Digits, x.Text = i%3, 4+i%7, suiteTexts[(i+2)%len(suiteTexts)]
+			for k := 0; k < 5; k++ {
+				lens := admissible(x, k)
+				for ct := 1; ct < len(c14Contents); ct++ {
+					in := oin{refill(lens.Counter, ct), refill(lens.Challenge, ct), refill(lens.Password, ct), refill(lens.Session, ct), refill(lens.Timestamp, ct)}
+					c := c05Case{"config", x, (i + k) % len(ocraKeys), in}
+					obs, bad := ocraGen(c)
+					nc++
+					if bad != "" {
+						r.Fail("ocra-generate", "content="+c14Contents[ct]+" "+x.sig(), c, bad, obs)
+					}
+				}
+			}
+		}
+		r.Eval(nc)
+		r.Set("content_class_cases", nc)
+	}
 	// (3) parsed suite strings the library accepts (reduced input set)
 	var n3, acc int64
 	for _, name := range grammarStrings(false) {
@@ -267,4 +289,12 @@ func grammarStrings(full bool) []string {
 		}
 	}
 	return out
+}
+
+// refill keeps a field's length (and nil-ness) and replaces its bytes by a content class of C14.
+func refill(b []byte, content int) []byte {
+	if b == nil {
+		return nil
+	}
+	return fillContent(len(b), 0, content)
 }
